@@ -82,6 +82,11 @@ ATOMS = [
     (r"self\.read\(\)\.unwrap\(\)\.heap_size\(\)", ".locked"),
     (r"matchself\{Some\(v\)=>v\.heap_size\(\),None=>0,?\}", ".matchOpt"),
     (r"matchself\{Ok\(v\)=>v\.heap_size\(\),Err\(e\)=>e\.heap_size\(\),?\}", ".matchRes"),
+    # the same two, written with combinators
+    (r"self\.as_ref\(\)\.map_or\(0,HeapSize::heap_size\)", ".matchOpt"),
+    (r"self\.as_ref\(\)\.map_or\(0,\|v\|v\.heap_size\(\)\)", ".matchOpt"),
+    (r"matchself\{None=>0,Some\(v\)=>v\.heap_size\(\),?\}", ".matchOpt"),
+    (r"matchself\{Err\(e\)=>e\.heap_size\(\),Ok\(v\)=>v\.heap_size\(\),?\}", ".matchRes"),
     # bulk helpers
     (r"T::heap_size_sum_iter\(\|\|make_iter\(\)\.map\(\|item\|&item\.0\)\)", "(.delegField false)"),
     (r"T::heap_size_sum_exact_size_iter\(\|\|make_iter\(\)\.map\(\|item\|&item\.0\)\)", "(.delegField true)"),
